@@ -96,6 +96,10 @@ def handle (op : String) (args : List String) (impl : String) : Option (String Ã
         | .ok i => "1 ok " ++ i.show
         | _ => "0 err"
       (m, holds s impl)
+  | "uuidtz", [_] =>
+    -- the report of the real binary under several process time zones (the model has no zone parameter at all:
+    -- every instant is formatted from seconds since the epoch, see Model/Uuid.lean)
+    some ("same", if impl = "same" then "holds" else s!"FAILS time_utc: the decoded time depends on the process time zone ({impl})")
   | _, _ => none
 
 end WhatIs.Oracle.C17
